@@ -95,6 +95,7 @@ impl Profile {
     }
 }
 
+#[derive(Clone)]
 pub(crate) struct Gen<'a> {
     pub r: Rng,
     pub m: Model,
@@ -360,6 +361,31 @@ impl<'a> Gen<'a> {
         self.actions.extend(acts);
         self.actions.push(Action::Settle);
         true
+    }
+
+    /// the line(s) a step of this kind would send now, without changing anything (for burst scripts, whose
+    /// execution order is decided by the scheduler, not by the generator)
+    pub(crate) fn dry(&mut self, kind: K, conn: usize) -> Option<String> {
+        let mut tmp = self.clone();
+        // force the acting connection: exclude every other registered one
+        tmp.exclude = (0..tmp.m.conns.len()).filter(|c| *c != conn).collect();
+        tmp.follow_rate = (0, 1);
+        let before = tmp.actions.len();
+        let ok = tmp.step(kind);
+        self.r = tmp.r;
+        self.uniq = tmp.uniq;
+        if !ok {
+            return None;
+        }
+        let sends: Vec<(usize, String)> = tmp.actions[before..]
+            .iter()
+            .filter_map(|a| if let Action::Send { c, d } = a { Some((*c, String::from_utf8_lossy(&unesc(d)).trim_end().to_string())) } else { None })
+            .collect();
+        if sends.len() == 1 && sends[0].0 == conn && !sends[0].1.contains('\n') {
+            Some(sends[0].1.clone())
+        } else {
+            None
+        }
     }
 
     pub(crate) fn say(&mut self, c: usize, line: &str) -> bool {
